@@ -18,14 +18,20 @@ def gen_sets(ctx):
 
 def cover_product(rng, comps, n):
     """Tuples over the component lists: every element of every component appears at least once; then
-    random tuples up to n in total (distinct)."""
+    random tuples up to n in total (distinct).  Each component is walked in its own freshly shuffled order, again and
+    again, so that short components are not tied to each other by a common period (a from-clause must meet every list)."""
     out, seen = [], set()
     longest = max(len(c) for c in comps)
-    order = [list(range(len(c))) for c in comps]
-    for o in order:
-        rng.shuffle(o)
+
+    def walker(k):
+        while True:
+            o = list(range(k))
+            rng.shuffle(o)
+            for x in o:
+                yield x
+    walks = [walker(len(c)) for c in comps]
     for i in range(longest):
-        t = tuple(o[i % len(o)] for o in order)
+        t = tuple(next(w) for w in walks)
         if t not in seen:
             seen.add(t)
             out.append(t)
